@@ -144,7 +144,17 @@ static void worker_disjoint(void *arg)
 		return;
 	}
 	json_object_object_add(o, "extra", json_object_new_int(me * 10));
+	if (variant)
+	{
+		/* each thread formats doubles its own way (a per-thread setting): "%.0f" drops the fraction,
+		 * the others keep one - settings of one thread must not leak into another */
+		static const char *const fmts[4] = {"", "%.0f", "%.3g", "%.2f"};
+		json_object_object_add(o, "d", json_object_new_double(3.0));
+		json_c_set_serialization_double_format(fmts[me & 3], JSON_C_OPTION_THREAD);
+	}
 	snprintf(results[me], sizeof results[me], "%s", json_object_to_json_string_ext(o, JSON_C_TO_STRING_PLAIN));
+	if (variant)
+		json_c_set_serialization_double_format(NULL, JSON_C_OPTION_THREAD);
 	json_object_put(o);
 }
 
@@ -245,7 +255,11 @@ static void run_body(int body, int nthr, int var)
 		for (int i = 1; i <= nthr; i++)
 		{
 			char expect[160];
-			snprintf(expect, sizeof expect, "{\"id\":%d,\"list\":[1,2.5,\"x%d\"],\"o\":{\"k\":null},\"extra\":%d}", i, i, i * 10);
+			static const char *const dtxt[4] = {"", "3", "3.0", "3.00"};
+			if (var)
+				snprintf(expect, sizeof expect, "{\"id\":%d,\"list\":[1,%s,\"x%d\"],\"o\":{\"k\":null},\"extra\":%d,\"d\":%s}", i, "2.5" /* parsed: keeps its source text */, i, i * 10, dtxt[i & 3]);
+			else
+				snprintf(expect, sizeof expect, "{\"id\":%d,\"list\":[1,2.5,\"x%d\"],\"o\":{\"k\":null},\"extra\":%d}", i, i, i * 10);
 			if (strcmp(expect, results[i]))
 			{
 				oracle_fail("a thread working on its own tree produced a different serialization than the sequential run");
@@ -264,7 +278,7 @@ struct cfg
 static const struct cfg CFGS[] = {
     {1, 2, 0, 2, 5}, {1, 2, 1, 2, 5}, {1, 3, 0, 1, 4}, {2, 2, 0, 2, 5}, {2, 2, 1, 2, 5}, {2, 3, 0, 1, 4}, {3, 2, 0, 2, 5},
     {3, 3, 0, 1, 3}, {4, 2, 0, 2, 5}, {4, 3, 0, 1, 4}, {5, 2, 0, 1, 3}, {1, 3, 1, 1, 3}, {2, 3, 1, 1, 3}, {3, 2, 1, 2, 4},
-    {4, 2, 1, 1, 2},
+    {4, 2, 1, 1, 2}, {5, 2, 1, 1, 2},
 };
 #define NCFG (int)(sizeof CFGS / sizeof CFGS[0])
 
